@@ -313,7 +313,7 @@ def conc_component(tier):
     for y in rep["overpaid"]:
         x = y["run"]
         viol.append({"key": "%s:concurrent:%s||%s" % ((y["clause"],) + names(x)),
-                     "what": "%s fails on the real node after two CONCURRENT accepted requests (each alone is fine): %s" % (
+                     "what": "%s fails on the real node after two requests executed CONCURRENTLY: %s" % (
                          y["clause"], story(x)), "replay": replay_of(x)})
     for x in rep["stuck"]:
         viol.append({"key": "pay-stuck:%s||%s" % names(x), "what": "concurrent requests never completed: " + story(x),
